@@ -365,6 +365,12 @@ impl Run {
     }
     /// Report a violating case. Returns true if it is a listed known finding.
     pub fn violation(&self, sig: &str, detail: &str, case: Value) -> bool {
+        let detail: String = if detail.len() > 700 {
+            format!("{}...[{} bytes]", detail.chars().take(700).collect::<String>(), detail.len())
+        } else {
+            detail.to_string()
+        };
+        let detail = detail.as_str();
         if let Some(k) = self.known.iter().find(|k| k.sig == sig) {
             let mut h = self.known_hits.lock().unwrap();
             let first = !h.contains_key(&k.sig);
